@@ -244,6 +244,14 @@ func runC15(c *Ctx) {
 				default:
 					good = true
 				}
+				// a value computed by an update/upsert callback from "no existing item" says nothing about what the
+				// store holds for the key: it is never cached (the handlers that upsert on a miss reload first or leave
+				// the cache alone)
+				if lname := strings.ToLower(cbName(ce)); good && (strings.HasPrefix(lname, "upd") || strings.HasPrefix(lname, "upsert")) && len(ce.Args) > 0 {
+					if ex := ce.Args[len(ce.Args)-1]; ex.isNilConst() {
+						good, why = false, "the value cached was computed by "+cbName(ce)+" from no existing item (nil) on a cache miss, without loading the stored one"
+					}
+				}
 				// the error test must precede the write
 				if good {
 					tested := false
